@@ -28,6 +28,12 @@ type DuplexPlan struct {
 	Back   []HRec     `json:"back,omitempty"`
 	WSplit []int      `json:"wsplit,omitempty"`
 	Conns  int        `json:"conns"` // connections served side by side (1..3)
+	// CloseAtMs > 0: the client takes ClientWindow octets of what the front
+	// writes and then stops reading, so that a Conn.Write blocks part-way; after
+	// CloseAtMs another goroutine of the front closes the Conn (an idle timeout,
+	// a shutdown). Both pumps must come back, without a panic.
+	CloseAtMs    int `json:"close_at_ms,omitempty"`
+	ClientWindow int `json:"client_window,omitempty"`
 }
 
 func executeDuplex(t *testing.T, prop string, seed uint64, p *DuplexPlan) *core.Result {
@@ -56,7 +62,11 @@ func executeDuplex(t *testing.T, prop string, seed uint64, p *DuplexPlan) *core.
 		var wg sync.WaitGroup
 		for ci := 0; ci < max(1, p.Conns); ci++ {
 			lat := simnet.LinkCfg{Seg: simnet.SegRandom, MaxSeg: 900, LatMinUs: 10, LatMaxUs: 300}
-			cc, fc := w.Pipe(fmt.Sprintf("c%d", ci), fmt.Sprintf("f%d", ci), lat, lat)
+			down := lat
+			if p.CloseAtMs > 0 {
+				down.Window = max(1, p.ClientWindow)
+			}
+			cc, fc := w.Pipe(fmt.Sprintf("c%d", ci), fmt.Sprintf("f%d", ci), lat, down)
 			wg.Add(2)
 			go func() { // client node
 				defer wg.Done()
@@ -69,6 +79,10 @@ func executeDuplex(t *testing.T, prop string, seed uint64, p *DuplexPlan) *core.
 					pos += n
 				}
 				cc.CloseWrite()
+				if p.CloseAtMs > 0 {
+					// not reading: the front's writes back up
+					time.Sleep(time.Duration(p.CloseAtMs)*time.Millisecond + time.Second)
+				}
 				buf := make([]byte, 32768)
 				cc.SetReadDeadline(time.Now().Add(time.Minute))
 				for {
@@ -92,6 +106,17 @@ func executeDuplex(t *testing.T, prop string, seed uint64, p *DuplexPlan) *core.
 					return
 				}
 				var pumps sync.WaitGroup
+				if p.CloseAtMs > 0 {
+					tm := time.AfterFunc(time.Duration(p.CloseAtMs)*time.Millisecond, func() {
+						if pk, m, s := core.Guard(func() { conn.Close() }); pk {
+							note("Conn.Close", m, s)
+						}
+					})
+					defer tm.Stop()
+					mu.Lock()
+					res.Probe("conn_closed_while_a_write_is_backed_up")
+					mu.Unlock()
+				}
 				pumps.Add(2)
 				go func() {
 					defer pumps.Done()
@@ -192,6 +217,13 @@ func genDuplex(seed uint64, idx int) *Plan {
 	r.Shuffle(len(d.Back), func(i, j int) { d.Back[i], d.Back[j] = d.Back[j], d.Back[i] })
 	if r.IntN(2) == 0 {
 		d.WSplit = []int{1 + r.IntN(7), 1 + r.IntN(2000)}
+	}
+	if (idx/10)%3 == 1 {
+		// the client stops reading and the front gives the connection up
+		d.CloseAtMs = []int{1, 50, 3000}[r.IntN(3)]
+		d.ClientWindow = []int{1, 3, 7, 10, 40, 300}[r.IntN(6)]
+		d.Conns = 1
+		d.Back = append([]HRec{{Kind: "sh"}, {Kind: "rec", Type: 22, Len: 600}}, d.Back...)
 	}
 	return &Plan{Kind: "duplex", Seed: seed, Duplex: d}
 }
